@@ -201,7 +201,11 @@ def handle_refuted(pid, pm, refuted, seed, lock):
             if sw is not None:
                 if rec['fuc'] not in done_fucs:
                     try:
-                        done_fucs[rec['fuc']] = run_native(sw(seed, rec))
+                        code = sw(seed, rec)
+                        ck = hashlib.sha1(code.encode()).hexdigest()      # the same sweep text is run once, whatever FUC asked for it
+                        if ck not in done_fucs:
+                            done_fucs[ck] = run_native(code)
+                        done_fucs[rec['fuc']] = done_fucs[ck]
                     except Exception as e:
                         done_fucs[rec['fuc']] = dict(ok=False, error='sweep failed: %s' % e)
                 s = done_fucs[rec['fuc']]
